@@ -10,35 +10,35 @@ PROPS = {
     "C01": dict(
         level="exploration",
         runs=dict(quick=24000, thorough=400000),
-        rule="seeded plans of family comm: API x stream subset x child script (cat, amplifier, source/sink, closer, early exit, daemon holding stdout, random op mixes) x input/output sizes around pipe capacities x pipe capacities x scheduler personality; every 4th run with short I/O, stalls or child death; non-trivial = a pipe was completely full or poll reported >= 2 ready streams at once; distinct = distinct hash of the (entity, call, result-class) sequence",
+        rule="seeded plans of family comm: API x stream subset x child script (cat, amplifier, source/sink, closer, early exit, daemon holding stdout, random op mixes) x input/output sizes around pipe capacities x pipe capacities x scheduler personality; every 4th run with short I/O, stalls or child death; non-trivial = a pipe was completely full or poll reported >= 2 ready streams at once; distinct = distinct hash of the (entity, call, result-class) sequence Environment dimensions drawn per run: the parent starts with a random subset of its descriptors 0-2 closed (1 run in 6-8; the caller's files then take the lowest free numbers in half of those), and in faulty batches a signal handler of the application interrupts the parent's blocking poll/read/write/waitpid (EINTR) 1-3 times.",
         assumptions=COMMON_ASSUME,
         expect_probes=["pipe_was_full", "poll_multi_ready", "parent_epipe"],
     ),
     "C02": dict(
         level="exploration",
         runs=dict(quick=24000, thorough=400000),
-        rule="family comm, alternating fault-free and faulty (short reads/writes at 5/30/90 %) batches; results compared with the kernel's per-pipe write history and the child's read log; non-trivial = a short transfer fired or both streams carried data beyond one chunk; distinct as C01",
+        rule="family comm, alternating fault-free and faulty (short reads/writes at 5/30/90 %) batches; results compared with the kernel's per-pipe write history and the child's read log; non-trivial = a short transfer fired or both streams carried data beyond one chunk; distinct as C01 Environment dimensions drawn per run: the parent starts with a random subset of its descriptors 0-2 closed (1 run in 6-8; the caller's files then take the lowest free numbers in half of those), and in faulty batches a signal handler of the application interrupts the parent's blocking poll/read/write/waitpid (EINTR) 1-3 times.",
         assumptions=COMMON_ASSUME,
         expect_probes=["short_read", "short_write"],
     ),
     "C03": dict(
         level="exploration",
         runs=dict(quick=16000, thorough=300000),
-        rule="family comm through Communicator with generated sequences of limit_size (1, 2, 4095, 4096, 4097, huge, random) and occasional limit_time; non-trivial = a limit cut a read while more data was buffered; distinct as C01",
+        rule="family comm through Communicator with generated sequences of limit_size (1, 2, 4095, 4096, 4097, huge, random) and occasional limit_time; non-trivial = a limit cut a read while more data was buffered; distinct as C01 Environment dimensions drawn per run: the parent starts with a random subset of its descriptors 0-2 closed (1 run in 6-8; the caller's files then take the lowest free numbers in half of those), and in faulty batches a signal handler of the application interrupts the parent's blocking poll/read/write/waitpid (EINTR) 1-3 times.",
         assumptions=COMMON_ASSUME,
         expect_probes=["limit_cut_with_more_buffered"],
     ),
     "C04": dict(
         level="exploration",
         runs=dict(quick=24000, thorough=400000),
-        rule="family comm through Communicator with generated limit_time sequences (0, sub-ms, ms..s, 2^31 ms +-1, 30 d, 400 d) against silent / trickling / flooding / stdin-closing children on the virtual clock; every 4th run with stalls, late timers, short I/O; non-trivial = the deadline passed while the read call was still issuing calls; distinct as C01",
+        rule="family comm through Communicator with generated limit_time sequences (0, sub-ms, ms..s, 2^31 ms +-1, 30 d, 400 d) against silent / trickling / flooding / stdin-closing children on the virtual clock; every 4th run with stalls, late timers, short I/O; non-trivial = the deadline passed while the read call was still issuing calls; distinct as C01 Environment dimensions drawn per run: the parent starts with a random subset of its descriptors 0-2 closed (1 run in 6-8; the caller's files then take the lowest free numbers in half of those), and in faulty batches a signal handler of the application interrupts the parent's blocking poll/read/write/waitpid (EINTR) 1-3 times.",
         assumptions=COMMON_ASSUME + ["the library's deadline is counted from its own first clock reading inside read(); a timeout is early if reported more than 1 ms before that"],
         expect_probes=["deadline_passed_inside_read", "timer_late", "stall"],
     ),
     "C05": dict(
         level="exploration",
         runs=dict(quick=100000, thorough=1500000),
-        rule="family spawn: run index mod 125 enumerates the 5x5x5 assignments of {None, Pipe, File, RcFile, Merge} to (stdin, stdout, stderr) for the first spawn (variants: shared Rc, try_clone of the same description), 0-2 further random spawns on the same thread, via Popen::create or Exec; identity of open file descriptions at the child's fds 0/1/2 compared with the model; non-trivial = a program image was started or a refusal was observed; distinct as C01",
+        rule="family spawn: run index mod 125 enumerates the 5x5x5 assignments of {None, Pipe, File, RcFile, Merge} to (stdin, stdout, stderr) for the first spawn (variants: shared Rc, try_clone of the same description), 0-2 further random spawns on the same thread, via Popen::create or Exec; identity of open file descriptions at the child's fds 0/1/2 compared with the model; non-trivial = a program image was started or a refusal was observed; distinct as C01 Environment dimensions drawn per run: the parent starts with a random subset of its descriptors 0-2 closed (1 run in 6-8; the caller's files then take the lowest free numbers in half of those), and in faulty batches a signal handler of the application interrupts the parent's blocking poll/read/write/waitpid (EINTR) 1-3 times.",
         assumptions=COMMON_ASSUME,
         exhaustive_note="all 125 combinations are covered in every quick run (index mod 125)",
     ),
@@ -59,20 +59,20 @@ PROPS = {
     "C08": dict(
         level="exploration",
         runs=dict(quick=16000, thorough=250000),
-        rule="family spawn/pipeline: histories of 2-6 spawns with random stream configurations while earlier Popens and their pipe ends stay open; pipelines of 2-6 stages through capture/communicate/popen/adapters; every descriptor a child holds after exec is classified: an end of a pipe created inside a library call must be one of the child's own fds 0/1/2; non-trivial = at least two children alive at an exec; distinct as C01",
+        rule="family spawn/pipeline: histories of 2-6 spawns with random stream configurations while earlier Popens and their pipe ends stay open; pipelines of 2-6 stages through capture/communicate/popen/adapters; every descriptor a child holds after exec is classified: an end of a pipe created inside a library call may only sit at the child's own fds 0/1/2 (a second descriptor for an own stream counts as a leak); consequences checked directly: the parent closing a child's stdin leaves no writer, a killed child leaves no writer on its output pipes, all children closing their fds 0-2 widows every library pipe the parent holds, Communicator::read() does not wait for a pipeline command that closed its streams and lingers for an hour; 1/4 of the spawn runs from 2-3 threads spawning concurrently; non-trivial = at least two children alive at an exec; distinct as C01 Environment dimensions drawn per run: the parent starts with a random subset of its descriptors 0-2 closed (1 run in 6-8; the caller's files then take the lowest free numbers in half of those), and in faulty batches a signal handler of the application interrupts the parent's blocking poll/read/write/waitpid (EINTR) 1-3 times.",
         assumptions=COMMON_ASSUME,
     ),
     "C09": dict(
         level="exploration",
         runs=dict(quick=100000, thorough=1500000),
-        rule="family status: random histories (2-12) of poll/wait/wait_timeout/pid/exit_status/terminate/kill/send_signal/detach and harness-side time advances against a child ending with any exit code 0-255 or any fatal signal at a generated instant; one run in three with a foreign reaper and pid reuse (small pid range, bystander processes); non-trivial = the child ended inside a wait_timeout, a signal was delivered, or a foreign reap happened; distinct as C01",
+        rule="family status: random histories (2-12) of poll/wait/wait_timeout/pid/exit_status/terminate/kill/send_signal/detach and harness-side time advances against a child ending with any exit code 0-255 or any fatal signal at a generated instant; one run in three with a foreign reaper and pid reuse (small pid range, bystander processes); non-trivial = the child ended inside a wait_timeout, a signal was delivered, or a foreign reap happened; distinct as C01 Environment dimensions drawn per run: the parent starts with a random subset of its descriptors 0-2 closed (1 run in 6-8; the caller's files then take the lowest free numbers in half of those), and in faulty batches a signal handler of the application interrupts the parent's blocking poll/read/write/waitpid (EINTR) 1-3 times.",
         assumptions=COMMON_ASSUME,
         expect_probes=["foreign_reap", "undetermined_after_foreign_reap", "child_exit_inside_wait_timeout"],
     ),
     "C10": dict(
         level="exploration",
         runs=dict(quick=100000, thorough=1500000),
-        rule="family status (same histories as C09); oracle over the log of kill() calls: before the Popen has observed termination exactly one kill(child pid, requested signal) per call, after observation none and Ok; non-trivial as C09",
+        rule="family status (same histories as C09); oracle over the log of kill() calls: before the Popen has observed termination exactly one kill(child pid, requested signal) per call, after observation none and Ok; non-trivial as C09 Environment dimensions drawn per run: the parent starts with a random subset of its descriptors 0-2 closed (1 run in 6-8; the caller's files then take the lowest free numbers in half of those), and in faulty batches a signal handler of the application interrupts the parent's blocking poll/read/write/waitpid (EINTR) 1-3 times.",
         assumptions=COMMON_ASSUME + ["a signal sent to a pid that foreign code reaped before the Popen could know is not flagged (the property does not forbid it)"],
         expect_probes=["foreign_reap", "pid_reuse"],
     ),
@@ -86,13 +86,13 @@ PROPS = {
     "C12": dict(
         level="exploration",
         runs=dict(quick=8000, thorough=120000),
-                rule="family drop: owner in {Popen (caller-releasable ends released first), join, capture, stream_stdout, stream_stderr, stream_stdin, pipeline adapters, pipeline join/capture} x child behaviour (exits early/late, reads to EOF, writes more than a pipe holds, unbounded writer) x drop point (nothing / part / everything consumed) x detached; non-trivial = a pipe was full, data was pending or a child was still alive at the drop; distinct as C01",
+                rule="family drop: owner in {Popen (caller-releasable ends released first), join, capture, stream_stdout, stream_stderr, stream_stdin, pipeline adapters, pipeline join/capture} x child behaviour (exits early/late, reads to EOF, writes more than a pipe holds, unbounded writer) x drop point (nothing / part / everything consumed) x detached; non-trivial = a pipe was full, data was pending or a child was still alive at the drop; distinct as C01 Environment dimensions drawn per run: the parent starts with a random subset of its descriptors 0-2 closed (1 run in 6-8; the caller's files then take the lowest free numbers in half of those), and in faulty batches a signal handler of the application interrupts the parent's blocking poll/read/write/waitpid (EINTR) 1-3 times.",
         assumptions=COMMON_ASSUME,
     ),
     "C13": dict(
         level="exploration",
         runs=dict(quick=12000, thorough=200000),
-                rule="family pipeline: 2-6 stages built as a|b|c, from_exec_iter, pipeline|pipeline, Pipeline::new|c; each stage a tagged non-commutative filter x -> 3x+tag that writes numbered stderr lines and exits with its own code; pipeline stdin in {inherit, pipe, data, file, null}, stdout in {inherit, pipe, file, null}, all terminators; non-trivial = more than 4 KiB flowed through or stderr lines were produced; distinct as C01",
+                rule="family pipeline: 2-6 stages built as a|b|c, from_exec_iter, pipeline|pipeline, Pipeline::new|c; each stage a tagged non-commutative filter x -> 3x+tag that writes numbered stderr lines and exits with its own code; pipeline stdin in {inherit, pipe, data, file, null}, stdout in {inherit, pipe, file, null}, all terminators; non-trivial = more than 4 KiB flowed through or stderr lines were produced; distinct as C01 Environment dimensions drawn per run: the parent starts with a random subset of its descriptors 0-2 closed (1 run in 6-8; the caller's files then take the lowest free numbers in half of those), and in faulty batches a signal handler of the application interrupts the parent's blocking poll/read/write/waitpid (EINTR) 1-3 times.",
         assumptions=COMMON_ASSUME,
     ),
     "C14": dict(
